@@ -226,7 +226,9 @@ int main(int argc, char** argv) {
       fam = (unsigned)((k - k / specialPeriod) % NREGULAR);
     const std::string family = FAMILIES[fam];
     unsigned budget = (unsigned)rng.pick({6, 40, 40, 300, 300, H.thorough ? 6000 : 2000});
+    size_t pool = 0;
     Ctx ctx{rng, budget};
+    ctx.pool = &pool;
     auto pickFrom = [&](const std::string& f) { return rng.pick(R.fam.at(f))(); };
     auto pickAny  = [&]() { return pickFrom(rng.pick(regular)); };
     std::vector<std::unique_ptr<Field>> fields;
@@ -290,6 +292,7 @@ int main(int argc, char** argv) {
       typeNames += (i ? " + " : "") + fields[i]->name();
     for (size_t i = 0; i < fields.size(); ++i) {
       ctx.nulStrings = nulFamily && (fields.size() == 1 || i == 1); // only the designated top-level string
+      pool           = (size_t)budget * 12; // elements (of all nesting levels together) per top-level field
       fields[i]->gen(ctx);
     }
     ctx.nulStrings = false;
@@ -353,7 +356,9 @@ int main(int argc, char** argv) {
       }
       bool dirty = (off % 2) == 1;
       Rng drng(mix(dirtySeed, off));
+      size_t dpool = 400;
       Ctx dctx{drng, std::min(budget, 40u)};
+      dctx.pool = &dpool;
       dctx.dirtyStrings = ctx.dirtyStrings;
       dctx.allowEmptyPod = ctx.allowEmptyPod;
       dirtyTargets += dirty;
